@@ -166,7 +166,7 @@ def check_versions_rel(ctx, FB):
                 break
     ldom = [("All",), ("Specific", 1), ("Specific", 2)]
 
-    def lv(v):
+    def lv(v, _pre=None):
         p = f"{pre}::LoginVersion::{v[0]}"
         return ("variant", p) if v[0] == "All" else ("variant", p, list(v[1:]))
 
@@ -184,7 +184,54 @@ def check_versions_rel(ctx, FB):
                     break
         except (Unsupported, Panic) as e:
             ctx.violate("ver.tables", f"Login|{name}|shape", f"LoginVersion::{name}: shape not recognised — review ({e})", fn["file"], fn["line"])
-    ctx.rule("ver.tables", n, floor=1900, note="version pairs evaluated by abstract interpretation of covers/overlaps/fullfills against the prefix relation")
+    # ---- set-level relations used by type lookup and clash detection ------------------------------------------------------
+    wuni = [("All",), ("Major", 1), ("Minor", 1, 1), ("Major", 2), ("Patch", 2, 1, 1), ("Exact", 2, 1, 1, 1)]
+    luni = [("All",), ("Specific", 1), ("Specific", 2)]
+
+    def subsets(u):
+        out = [[x] for x in u]
+        out += [[a, b] for a, b in itertools.combinations(u, 2)]
+        return out
+
+    av = f"{pre}::AllVersions"
+    for name, spec_w, spec_l in (
+        ("fulfills_all", lambda A, B: all(any(covers_spec(a, b) for a in A) for b in B), lambda A, B: all(any(a[0] == "All" or a == b for a in A) for b in B)),
+        ("has_version_intersections", lambda A, B: any(overlaps_spec(a, b) for a in A for b in B), lambda A, B: any(a[0] == "All" or b[0] == "All" or a == b for a in A for b in B)),
+    ):
+        fn = F.fn(base + "AllVersions::" + name)
+        if fn is None:
+            ctx.violate("ver.tables", f"anchor|All|{name}", f"AllVersions::{name} not found")
+            continue
+        try:
+            bad = None
+            for kind, uni, mk, spec in (("World", wuni, lambda v: wv(v, pre), spec_w), ("Login", luni, lv, spec_l)):
+                for A in subsets(uni):
+                    for B in subsets(uni):
+                        n += 1
+                        a = ("variant", f"{av}::{kind}", [[mk(x) for x in sorted(A, key=str)]])
+                        b = ("variant", f"{av}::{kind}", [[mk(x) for x in sorted(B, key=str)]])
+                        got = Mini(FB, "wow_message_parser").call_fn(fn["path"], [a, b])
+                        if got != spec(A, B):
+                            bad = (kind, A, B, got, spec(A, B))
+                            break
+                    if bad:
+                        break
+                if bad:
+                    break
+            # different kinds never relate
+            a = ("variant", f"{av}::World", [[wv(("All",), pre)]])
+            b = ("variant", f"{av}::Login", [[lv(("All",))]])
+            for x, y in ((a, b), (b, a)):
+                n += 1
+                if Mini(FB, "wow_message_parser").call_fn(fn["path"], [x, y]) is not False:
+                    bad = ("mixed", ["*"], ["*"], True, False)
+            if bad:
+                kind, A, B, got, want = bad
+                ctx.violate("ver.tables", f"All|{name}", f"AllVersions::{name}({kind} {{{', '.join(fmt(x) for x in A)}}}, {{{', '.join(fmt(x) for x in B)}}}) = {got}, "
+                            f"the definition ({'every required version is covered by some provided version' if name == 'fulfills_all' else 'some pair of versions overlaps'}) gives {want}", fn["file"], fn["line"])
+        except (Unsupported, Panic) as e:
+            ctx.violate("ver.tables", f"All|{name}|shape", f"AllVersions::{name}: shape not recognised — review ({e})", fn["file"], fn["line"])
+    ctx.rule("ver.tables", n, floor=2890, note="version pairs evaluated by abstract interpretation of covers/overlaps/fullfills against the prefix relation")
 
 
 def fmt(v):
